@@ -70,6 +70,7 @@ type CheckReport struct {
 	SolverMS  int64
 	ByBackend map[string]int
 	Lemmas    []*Obligation
+	Gone      []string // contracts (without property clauses) whose function no longer exists
 }
 
 // rootsFor: functions whose contract has a clause tagged with prop.
@@ -125,6 +126,13 @@ func (e *Engine) RunCheck(prop string, timeoutS int, thorough bool, known []Know
 		res := e.VerifyFunc(key, prop)
 		rep.Funcs = append(rep.Funcs, res)
 		if res.Err != "" {
+			if res.ErrKind == "missing" && !e.hasTaggedClause(key) {
+				// the function this contract was written for is gone (renamed, inlined, turned into a
+				// package-level function ...). No property clause rides on it - those are in the ledger and
+				// reported as MISSING - so this is not a violation; it is recorded.
+				rep.Gone = append(rep.Gone, key)
+				continue
+			}
 			rep.Errors = append(rep.Errors, fmt.Sprintf("%s: %s: %s", key, res.ErrKind, res.Err))
 			continue
 		}
@@ -385,22 +393,23 @@ func writeEvidence(verif string, e *Engine, rep *CheckReport, tier string, seed 
 		"effect-free allow-list: logrus, prometheus, fmt, errors, context, sync, pkg/metrics calls neither read nor write modelled state",
 		"Kubernetes objects handed out by listers are not mutated concurrently during a scan")
 	cov := map[string]interface{}{
-		"obligations":              len(rep.Obls),
-		"discharged":               len(rep.Obls) - len(rep.Failed),
-		"checker_cmd":              fmt.Sprintf("/verif/bin/govc check -prop %s -tier %s  (z3-new 5.1.0 | z3 4.8.12 | cvc5 1.0 raced per obligation)", rep.Prop, tier),
-		"trusted_base":             tb,
-		"samples":                  samples,
-		"functions_under_contract": fns,
-		"functions_inlined":        dedup(inl),
-		"functions_outside_subset": outside,
-		"by_backend":               rep.ByBackend,
-		"solver_time_s":            float64(rep.SolverMS) / 1000,
-		"slowest":                  slow,
-		"covers_checked":           len(rep.Covers),
-		"covers_vacuous":           len(rep.Vacuous),
-		"known_findings_matched":   rep.Known,
-		"ledger_missing":           rep.Missing,
-		"lemmas":                   len(rep.Lemmas),
+		"obligations":                len(rep.Obls),
+		"discharged":                 len(rep.Obls) - len(rep.Failed),
+		"checker_cmd":                fmt.Sprintf("/verif/bin/govc check -prop %s -tier %s  (z3-new 5.1.0 | z3 4.8.12 | cvc5 1.0 raced per obligation)", rep.Prop, tier),
+		"trusted_base":               tb,
+		"samples":                    samples,
+		"functions_under_contract":   fns,
+		"functions_inlined":          dedup(inl),
+		"functions_outside_subset":   outside,
+		"by_backend":                 rep.ByBackend,
+		"solver_time_s":              float64(rep.SolverMS) / 1000,
+		"slowest":                    slow,
+		"covers_checked":             len(rep.Covers),
+		"covers_vacuous":             len(rep.Vacuous),
+		"known_findings_matched":     rep.Known,
+		"ledger_missing":             rep.Missing,
+		"lemmas":                     len(rep.Lemmas),
+		"contracts_without_function": rep.Gone,
 	}
 	for k, x := range extra {
 		cov[k] = x
@@ -677,4 +686,25 @@ func leanLemmas(prop string) []*Obligation {
 		out = append(out, o)
 	}
 	return out
+}
+
+// hasTaggedClause: some clause of the contract carries a property tag.
+func (e *Engine) hasTaggedClause(key string) bool {
+	fc := e.db.Funcs[key]
+	if fc == nil {
+		return false
+	}
+	for _, cl := range fc.Clauses {
+		if len(cl.Tags) > 0 {
+			return true
+		}
+	}
+	for _, l := range fc.Loops {
+		for _, cl := range l.Clauses {
+			if len(cl.Tags) > 0 {
+				return true
+			}
+		}
+	}
+	return false
 }
